@@ -157,7 +157,7 @@ theorem rflush_immediate_if_absent (s : LS) (f ot : Nat) (hf : f < s.n) (hw : (s
                  .queue s.insts.length, .send] = some s' ∧ s'.wire = s.wire ++ [f] := by
   let s1 : LS := { s with req := upd s.req f { s.req f with wpc := .fl1 none } }
   have h1 : s.step (.flushLookup f) = some s1 := by
-    simp only [LS.step, hf, hw, and_self, if_true, hot, hch, List.head?_nil, s1]
+    simp only [LS.step, hf, hw, and_self, if_true, hot, lookupTarget, hch, List.head?_nil, s1]
   let s2 : LS := { s1 with req := upd s1.req f { s1.req f with wpc := .tail }, insts := s1.insts ++ [{ rid := f }] }
   have h2 : s1.step (.flushAct f) = some s2 := by
     have e1 : f < s1.n := hf
@@ -219,13 +219,21 @@ theorem reply_before_rflush_partial (cap : Nat) (es : List Ev) (s : LS) (h : (LS
       exact ih s1 (inv_step s s1 e hI hs) (nf_step s s1 e hs t htn hnf) (Nat.lt_of_lt_of_le htn hn1)
         (fun hm => hno (out_step_nf s s1 e hI.1.2 hs t hnf hm)) s' hr
 
-/-- the lookup records its target exactly when the table holds a request under the old tag -/
+/-- the lookup records its target exactly when the table holds another request under the old tag -/
 theorem lookup_finds_newest (s s' : LS) (f ot t : Nat) (hf : f < s.n) (hw : (s.req f).wpc = .fl0)
-    (hot : (s.req f).oldtag = some ot) (hhd : (s.chain ot).head? = some t) (hs : s.step (.flushLookup f) = some s') :
+    (hot : (s.req f).oldtag = some ot) (hhd : (s.chain ot).head? = some t) (hne : t ≠ f)
+    (hs : s.step (.flushLookup f) = some s') :
     (s'.req f).looked = some t ∧ (s'.req f).wpc = .fl1 (some t) := by
-  simp only [LS.step, hf, hw, and_self, if_true, hot, hhd] at hs
+  simp only [LS.step, hf, hw, and_self, if_true, hot, lookupTarget, hhd, if_neg hne] at hs
   cases hs
   constructor <;> simp
+
+/-- A Tflush that names its own tag finds nothing to flush (what it could have flushed ran
+    before it): it is treated as a Tflush of a tag that is not outstanding, and answered at once. -/
+theorem self_flush_finds_nothing (s : LS) (f ot : Nat) (hf : f < s.n) (hw : (s.req f).wpc = .fl0)
+    (hot : (s.req f).oldtag = some ot) (hhd : (s.chain ot).head? = some f) :
+    s.step (.flushLookup f) = some { s with req := upd s.req f { s.req f with wpc := .fl1 none } } := by
+  simp only [LS.step, hf, hw, and_self, if_true, hot, lookupTarget, hhd]
 
 /-! ### non-vacuity of the tame hypothesis: request 0 (tag 5) in the implementation, flushed by request 1 -/
 example : ((LS.init 4).runT [.recv 5 none, .check 0, .dispatch 0, .recv 9 (some 5), .check 1, .dispatch 1,
